@@ -1,5 +1,5 @@
 //! Scratch probe: tiny deterministic reproductions against hexane's public API only.
-use hexane::{Column, DeltaColumn, PrefixColumn};
+use hexane::{Column, DeltaColumn, PrefixColumn, Splice};
 
 fn try_<T>(name: &str, f: impl FnOnce() -> T + std::panic::UnwindSafe) -> Option<T> {
     match std::panic::catch_unwind(f) {
@@ -65,6 +65,49 @@ fn main() {
                 c.to_vec()
             });
         }
+    }
+
+    if on("copy-ranges-pure-delete") {
+        // a pure delete (empty source range, delete > 0) with a source of >= 8 slabs and equal max_segments
+        for (range, label) in [(0..0, "0..0"), (50..50, "50..50"), (100..100, "100..100 (= src.len())")] {
+            let r = try_(&format!("copy_ranges pure delete, src range {label}"), move || {
+                let mut dst = Column::<u64>::from_values_with_max_segments((0..20).collect(), 4);
+                let src = Column::<u64>::from_values_with_max_segments((0..100).collect(), 4);
+                assert!(src.slab_count() >= 8);
+                dst.copy_ranges(src, [Splice { pos: 3, delete: 2, range }]);
+                dst.to_vec()
+            });
+            println!("  -> {:?}", r);
+        }
+    }
+    if on("delta-transient-overflow") {
+        // all values inside the documented domain [0, 2^63)
+        let m = i64::MAX as u64 - 1;
+        let alpha = [0u64, 4, m, 1 << 62];
+        let mut seed = 12345u64;
+        let mut next = move || {
+            seed ^= seed << 13;
+            seed ^= seed >> 7;
+            seed ^= seed << 17;
+            seed
+        };
+        let mut best: Option<(Vec<Option<u64>>, usize)> = None;
+        for _ in 0..20000 {
+            let n = 2 + (next() % 7) as usize;
+            let vals: Vec<Option<u64>> = (0..n).map(|_| if next() % 5 == 0 { None } else { Some(alpha[(next() % 4) as usize]) }).collect();
+            for at in 0..=n {
+                let v2 = vals.clone();
+                let r = std::panic::catch_unwind(move || {
+                    let mut c = DeltaColumn::<Option<u64>>::with_max_segments(2);
+                    c.splice(0, 0, v2);
+                    c.insert(at, None);
+                });
+                if r.is_err() && best.as_ref().map(|b| b.0.len() > n).unwrap_or(true) {
+                    best = Some((vals.clone(), at));
+                }
+            }
+        }
+        println!("smallest panicking case: {:?}", best);
     }
     if on("prefix") {
         let col = PrefixColumn::<u32>::from_values(vec![5, 3, 7, 2]);
